@@ -2,10 +2,12 @@ package textmut
 
 import (
 	"testing"
+
+	"wa-lang.org/wa/zverif/harness/core"
 )
 
 func corpus(t *testing.T) *Corpus {
-	c, err := Load("/repo")
+	c, err := Load(core.RepoDir())
 	if err != nil {
 		t.Fatal(err)
 	}
